@@ -1,8 +1,11 @@
 pub mod c01;
 pub mod c02;
+pub mod c03;
 pub mod c07;
+pub mod c10;
 pub mod c11;
 pub mod c12;
+pub mod c14;
 pub mod c15;
 pub mod c16;
 pub mod c18;
@@ -15,9 +18,12 @@ pub fn run(id: &str, tier: Tier) -> Option<i32> {
     Some(match id {
         "C01" => c01::run(tier),
         "C02" => c02::run(tier),
+        "C03" => c03::run(tier),
         "C07" => c07::run(tier),
+        "C10" => c10::run(tier),
         "C11" => c11::run(tier),
         "C12" => c12::run(tier),
+        "C14" => c14::run(tier),
         "C15" => c15::run(tier),
         "C16" => c16::run(tier),
         "C18" => c18::run(tier),
@@ -49,6 +55,22 @@ pub fn replay(property: &str, part: &str, case: &serde_json::Value) -> Option<Re
         ("C01", "handshake-signature") => replay_part(&c01::Signatures, case, 1),
         ("C01", "handshake") => replay_part(&c01::Handshakes, case, 1),
         ("C01", "message") => replay_part(&c01::Messages, case, 1),
+        ("C03", "dials") => replay_part(&c03::Dials, case, 1),
+        ("C14", "name-grid") => {
+            let d: Result<c14::NameCfg, _> = serde_json::from_value(case["dialer"].clone());
+            let l: Result<c14::NameCfg, _> = serde_json::from_value(case["listener"].clone());
+            match (d, l) {
+                (Ok(d), Ok(l)) => match c14::honest_dial(&d, &l) {
+                    Ok(_) => Ok(()),
+                    Err(crate::core::Fail::Violation { key, msg }) => Err((key, msg, 1)),
+                    Err(crate::core::Fail::Inconclusive(m)) => Err(("inconclusive".into(), m, 0)),
+                },
+                _ => Err(("replay:decode".into(), "bad grid case".into(), 0)),
+            }
+        }
+        ("C14", "adversarial-names") => replay_part(&c14::Adversarial, case, 1),
+        ("C14", "verifier-names") => replay_part(&c14::VerifierNames, case, 1),
+        ("C10", "admission-history") => replay_part(&c10::Histories, case, 1),
         _ => return None,
     })
 }
